@@ -103,10 +103,11 @@ PROPS = {
     "C06": dict(
         harnesses=[
             dict(run=B + "VerifC06ListWatch", quick=dict(ops=1, keys=1, val9=0, later=2), thorough=dict(ops=1, keys=2, val9=0, later=3), covers=["put-applied", "delete-applied", "compaction-between", "done"]),
+            dict(run=B + "VerifC06Race", quick=dict(preempt=2), thorough=dict(preempt=3), covers=["read-saw-racing-write", "read-missed-racing-write", "done"], stress=10),
         ],
-        bounds=dict(quick="1-write history, list at latest (R), watch from R+1, 2 further symbolic writes (successful and failed) with an optional compaction at any revision in between, reconstruction compared with the list at the latest revision R' and with the reference model",
-                    thorough="2 keys, 3 further writes"),
-        outside="reader/watcher racing the writers (sequential client here; hand-over races are C05's threaded harnesses); intermediate R' (only the latest is compared)",
+        bounds=dict(quick="1-write history, list at latest (R), watch from R+1, 2 further symbolic writes (successful and failed) with an optional compaction at any revision in between, reconstruction compared with the list at the latest revision R' and with the reference model; the range read racing a concurrent create and the sequencer (interleaved at store operations, revision dealing and committing, <= 2 scheduling delays), then watch + 1 further write",
+                    thorough="2 keys, 3 further writes; 3 delays"),
+        outside="the watch registration racing writes (C05 hand-over harness); intermediate R' (only the latest is compared); more than one concurrent writer",
     ),
     "C09": dict(
         harnesses=[
@@ -134,8 +135,9 @@ PROPS = {
             dict(run=B + "VerifC17Prefix", quick=dict(extra=4), thorough=dict(extra=8), covers=["ttl-given"]),
             dict(run=B + "VerifC17Expiry", quick=dict(ops=1, keys=3, val9=0, between=1), thorough=dict(ops=2, keys=3, val9=0, between=1),
                  covers=["event-expired", "old-event-kept-ttl-not-elapsed", "young-event-kept", "done"]),
+            dict(run=B + "VerifC17Race", quick=dict(preempt=2, native_tick_ms=1300), thorough=dict(preempt=3, native_tick_ms=1300), covers=["update-won", "expiry-won", "done"], stress=5),
         ],
-        bounds=dict(quick="keys of 10..14 fully symbolic bytes (> '$') for the TTL decision; expiry: 1-write history over {an Event key, a key that merely contains /events/, a plain key}, compaction mark, 1 further write, symbolic elapsed time, second compaction on an engine without native TTL",
+        bounds=dict(quick="keys of 10..14 fully symbolic bytes (> '$') for the TTL decision; expiry: 1-write history over {an Event key, a key that merely contains /events/, a plain key}, compaction mark, 1 further write, symbolic elapsed time, second compaction on an engine without native TTL; the expiry scan racing an update of the Event (interleaved at the store operations, <= 2 scheduling delays)",
                     thorough="keys of 10..18 bytes; 2-write histories"),
         outside="engine-native TTL after updates (memkv AfterFunc, Badger entry TTL); faults during expiry; more than one compaction mark",
     ),
